@@ -389,6 +389,30 @@ func c12Check(c C12Case, rec *Recorder) *Disc {
 			if mw == nil {
 				continue
 			}
+			if i%2 == 1 {
+				// the whole burst is answered into ONE header map (a reused recorder): every response finds what the
+				// previous one and the outer layer left behind, and must be what a fresh middleware answers when
+				// given a copy of those headers as pre-set response headers
+				chain := NewRec(nil)
+				fresh, err := cors.NewMiddleware(mw.cfg.Cors())
+				if err != nil {
+					continue
+				}
+				for _, r := range s.Reqs {
+					var pre []HV
+					for k, v := range chain.H {
+						pre = append(pre, HV{Key: k, Vals: Vals(v...)})
+					}
+					got := DoOn(chain, mw.srv.Wrap, r, nil).Sig()
+					want := Do(fresh.Wrap, r, pre).Sig()
+					rec.Eval(2)
+					if got != want {
+						return discf("step %d (burst into one reused header map): middleware %d (cfg %+v) answers {%s} with %s; a fresh middleware given a copy of the same pre-set headers answers %s", i, s.Idx, mw.cfg, r.Brief(), abbrev(got, 500), abbrev(want, 500))
+					}
+				}
+				rec.Class("burst-into-one-header-map")
+				break
+			}
 			for _, r := range s.Reqs {
 				Do(mw.srv.Wrap, r, nil)
 				rec.Eval(1)
